@@ -78,7 +78,7 @@ theorem C05_uncompressed_sizes_match (D : Deps) (cols : List Col) (codec pageSiz
 
 /- non-vacuity: the two-column, two-row-group history of Properties/C05/Writer.lean closes OK; its footer
 states 50 + 51 and 46 + 40 bytes (headers included), row groups 101 and 86 -/
-example : (fileOf (deps []) [⟨"a", .int32, .optional, 0⟩, ⟨"b", .boolean, .required, 0⟩] 0 64 "Carquet"
+example : (fileOf (deps []) [⟨"a", .int32, .optional, 0, none⟩, ⟨"b", .boolean, .required, 0, none⟩] 0 64 "Carquet"
     [.batch ⟨0, 3, some [1, 0, 1], [[1, 0, 0, 0], [2, 0, 0, 0]], none⟩, .batch ⟨1, 3, none, [[1], [0], [1]], none⟩, .newRowGroup,
      .batch ⟨0, 1, none, [[7, 0, 0, 0]], none⟩, .batch ⟨1, 1, none, [[0]], none⟩]).2.getLast? = some .ok := by
   decide +kernel
@@ -130,7 +130,7 @@ header; the footer said `total_uncompressed_size = 8`.  (b) sixteen equal values
 9 bytes behind a 40-byte header; the footer said `total_uncompressed_size = 64` and `total_byte_size = 49` (the
 compressed chunk) where the format defines 104 for both.  Every call returned OK. -/
 
-private def f23Cols : List Col := [⟨"c0", .int32, .required, 0⟩]
+private def f23Cols : List Col := [⟨"c0", .int32, .required, 0, none⟩]
 private def f23Ops : List Op := [.batch ⟨0, 2, none, [[1, 0, 0, 0], [2, 0, 0, 0]], none⟩]
 private def f23OpsB : List Op := [.batch ⟨0, 16, none, List.replicate 16 [7, 0, 0, 0], none⟩]
 /-- the FileMetaData the pinned code assembled for (a) -/
@@ -195,7 +195,7 @@ example : Spec.File.read (fileOf (deps []) f23Cols 0 1048576 "Carquet" f23Ops).1
   C05_spec_reader_accepts_writer f23Cols 0 1048576 f23Ops (by decide)
     ⟨by decide, fun c hc => by
       simp only [f23Cols, List.mem_cons, List.mem_nil_iff, or_false] at hc; subst hc; exact ⟨by decide⟩,
-     ⟨by decide, by decide +kernel, by decide⟩⟩
+     ⟨by decide, by decide +kernel, by decide, by decide⟩⟩
     ⟨fun b hb => by
       simp only [f23Ops, List.mem_cons, Op.batch.injEq, List.mem_nil_iff, or_false] at hb; subst hb
       exact ⟨by decide, (by intro ds h; cases h), (by intro rs h; cases h)⟩,
